@@ -196,24 +196,25 @@ theorem ne_nil_of_isChildOf {q p : Path} (h : isChildOf q p = true) : q ≠ [] :
   intro e; subst e; simp [isChildOf, parent] at h
 
 /-- under the relation the two listings are the same sorted duplicate-free list of names -/
-theorem listing_eq {fs : Fs} {l : Live} (h : FsRel fs l) (p : Path) : dirEntryNames fs p = sChildNames l p := by
+theorem listing_eq' {fs : Fs} {l : Live} (hnoRN : NoRN fs.pending) (hfile : ∀ p, fileExists fs p = isFileAt l p)
+    (hdir : ∀ p, dirExists fs p = isDirAt l p) (p : Path) : dirEntryNames fs p = sChildNames l p := by
   unfold dirEntryNames sChildNames
   apply sortDedup_congr
   intro m
   simp only [List.mem_map]
   constructor
   · rintro ⟨q, hq, hm⟩
-    obtain ⟨hc, hex⟩ := (mem_dirEntryPaths h.noRN p q).mp hq
+    obtain ⟨hc, hex⟩ := (mem_dirEntryPaths hnoRN p q).mp hq
     have hq0 := ne_nil_of_isChildOf hc
     have hsome : (elookup q l.ents).isSome = true := by
       rcases hex with hex | hex
-      · rw [h.file] at hex
+      · rw [hfile] at hex
         unfold isFileAt entAt at hex
         simp only [hq0, if_false] at hex
         cases hl : elookup q l.ents with
         | none => simp [hl] at hex
         | some e => rfl
-      · rw [h.dir] at hex
+      · rw [hdir] at hex
         unfold isDirAt entAt at hex
         simp only [hq0, if_false] at hex
         cases hl : elookup q l.ents with
@@ -226,15 +227,18 @@ theorem listing_eq {fs : Fs} {l : Live} (h : FsRel fs l) (p : Path) : dirEntryNa
     have hq0 := ne_nil_of_isChildOf hqe.2
     have hsome := (elookup_isSome_iff q l.ents).mpr ⟨e, hqe.1⟩
     refine ⟨q, ?_, hm⟩
-    apply (mem_dirEntryPaths h.noRN p q).mpr
+    apply (mem_dirEntryPaths hnoRN p q).mpr
     refine ⟨hqe.2, ?_⟩
     cases hl : elookup q l.ents with
     | none => simp [hl] at hsome
     | some e' =>
       cases e' with
       | file id =>
-        left; rw [h.file]; simp [isFileAt, entAt, hq0, hl]
+        left; rw [hfile]; simp [isFileAt, entAt, hq0, hl]
       | dir id =>
-        right; rw [h.dir]; simp [isDirAt, entAt, hq0, hl]
+        right; rw [hdir]; simp [isDirAt, entAt, hq0, hl]
+
+theorem listing_eq {fs : Fs} {l : Live} (h : FsRel fs l) (p : Path) : dirEntryNames fs p = sChildNames l p :=
+  listing_eq' h.noRN h.file h.dir p
 
 end TV.Fs
